@@ -3,10 +3,13 @@
 // when the property itself fails on the implementation.
 #include "common.hpp"
 #include <algorithm>
+#include <csignal>
 #include <map>
 #include <set>
+#include <unistd.h>
 #define private public
 #define protected public
+#include "AMRDensityGrid.hpp"
 #include "AMRGrid.hpp"
 #include "CartesianDensityGrid.hpp"
 #include "MortonKeyGenerator.hpp"
@@ -19,6 +22,16 @@
 typedef long long ll;
 
 static uint64_t lineno = 0;
+// an operation of the implementation that does not come back (e.g. a traversal that never leaves
+// the grid) is reported as a property failure with the line that hangs
+static void on_alarm(int) {
+  char buf[128];
+  const int n = snprintf(buf, sizeof(buf), "\nORACLE line=%lu implementation-does-not-terminate\n",
+                         (unsigned long)lineno);
+  if (write(1, buf, n) < 0) {
+  }
+  _exit(3);
+}
 static void oracle(const std::string &what) {
   std::cout << "ORACLE line=" << lineno << " " << what << "\n";
 }
@@ -823,10 +836,199 @@ static void op_oct(const std::vector< std::string > &w) {
   std::cout << "bad-op\n";
 }
 
+// ---------------------------------------------------------------- AMRDensityGrid (oracle only)
+static uint64_t hash3(double x, double y, double z, uint64_t seed) {
+  uint64_t h = seed * 0x9E3779B97F4A7C15ull + 0x632BE59BD9B4E019ull;
+  const double v[3] = {x, y, z};
+  for (int i = 0; i < 3; ++i) {
+    h ^= bits_of(v[i]) + 0x9E3779B97F4A7C15ull + (h << 6) + (h >> 2);
+    h *= 0xBF58476D1CE4E5B9ull;
+    h ^= h >> 29;
+  }
+  return h;
+}
+
+class HarnessDensityFunction : public DensityFunction {
+public:
+  uint64_t seed;
+  HarnessDensityFunction(uint64_t s) : seed(s) {}
+  DensityValues operator()(const Cell &cell) {
+    DensityValues values;
+    const CoordinateVector<> m = cell.get_cell_midpoint();
+    values.set_number_density(1. + (hash3(m.x(), m.y(), m.z(), seed) % 4) * 0.5);
+    values.set_temperature(4000.);
+    return values;
+  }
+};
+
+class HarnessRefinementScheme : public AMRRefinementScheme {
+public:
+  uint64_t seed;
+  uint_fast8_t depth;
+  CoordinateVector<> focus;
+  double radius;
+  HarnessRefinementScheme(uint64_t s, uint_fast8_t d, CoordinateVector<> f, double r)
+      : seed(s), depth(d), focus(f), radius(r) {}
+  virtual bool refine(uint_fast8_t level, DensityGrid::iterator &cell) const {
+    if (level >= depth)
+      return false;
+    const CoordinateVector<> m = cell.get_cell_midpoint();
+    // refine around a focus point (deep) and pseudo-randomly elsewhere (shallow)
+    if ((m - focus).norm() < radius * (1. + 1.5 / (1 << level)))
+      return true;
+    return level < 2 && hash3(m.x(), m.y(), m.z(), seed) % 5 == 0;
+  }
+};
+
+static AMRDensityGrid *amrd = nullptr;
+static Box<> amrd_box;
+static bool amrd_per[3];
+static uint64_t amrd_seed = 0;
+
+static double amrd_x(uint64_t c) { return 0.2 + 0.3 * ((c * 2654435761ull + amrd_seed) % 7); }
+
+static void op_amrd(const std::vector< std::string > &w) {
+  const std::string &sub = w[1];
+  if (sub == "new" && w.size() == 19) {
+    delete amrd;
+    amrd_box = Box<>(CoordinateVector<>(dbl(w[2]), dbl(w[3]), dbl(w[4])),
+                     CoordinateVector<>(dbl(w[5]), dbl(w[6]), dbl(w[7])));
+    const CoordinateVector< uint_fast32_t > n(u64(w[8]), u64(w[9]), u64(w[10]));
+    for (int i = 0; i < 3; ++i)
+      amrd_per[i] = (w[11 + i] == "1");
+    amrd_seed = u64(w[14]);
+    const CoordinateVector<> focus(dbl(w[16]), dbl(w[17]), dbl(w[18]));
+    const double rad = 0.15 * std::min(amrd_box.get_sides().x(),
+                                       std::min(amrd_box.get_sides().y(), amrd_box.get_sides().z()));
+    HarnessDensityFunction df(amrd_seed);
+    amrd = new AMRDensityGrid(amrd_box, n, new HarnessRefinementScheme(amrd_seed, u64(w[15]), focus, rad), 5,
+                              CoordinateVector< bool >(amrd_per[0], amrd_per[1], amrd_per[2]));
+    std::pair< cellsize_t, cellsize_t > block = std::make_pair(0, amrd->get_number_of_cells());
+    amrd->initialize(block, df);
+    const uint64_t nc = amrd->get_number_of_cells();
+    for (uint64_t c = 0; c < nc; ++c) {
+      IonizationVariables &iv = DensityGrid::iterator(c, *amrd).get_ionization_variables();
+      iv.set_ionic_fraction(ION_H_n, amrd_x(c));
+      iv.set_ionic_fraction(ION_He_n, 0.);
+    }
+    std::cout << "amrd new\n";
+    // oracle: volumes sum to the box, enumeration over keys = cell list
+    double vol = 0.;
+    for (uint64_t c = 0; c < nc; ++c)
+      vol += amrd->get_cell_volume(c);
+    const double bv = amrd_box.get_sides().x() * amrd_box.get_sides().y() * amrd_box.get_sides().z();
+    if (!(std::fabs(vol - bv) <= 1.e-11 * bv))
+      oracle("amrdensitygrid-volumes-do-not-sum-to-box-volume");
+    if (amrd->_grid.get_number_of_cells() != nc)
+      oracle("amrdensitygrid-cell-list-differs-from-tree");
+    uint64_t cnt = 0;
+    std::set< const void * > seen;
+    amrkey_t key = amrd->_grid.get_first_key();
+    while (key != amrd->_grid.get_max_key() && cnt <= nc + 2) {
+      ++cnt;
+      seen.insert(&amrd->_grid[key]);
+      key = amrd->_grid.get_next_key(key);
+    }
+    if (cnt != nc || seen.size() != nc)
+      oracle("amrdensitygrid-enumeration-does-not-visit-each-cell-once");
+    return;
+  }
+  if (!amrd) {
+    std::cout << "bad-op\n";
+    return;
+  }
+  const uint64_t nc = amrd->get_number_of_cells();
+  const CoordinateVector<> sc = box_scale(amrd_box);
+  if (sub == "loc" && w.size() == 5) {
+    const CoordinateVector<> p(dbl(w[2]), dbl(w[3]), dbl(w[4]));
+    std::cout << "amrd loc\n";
+    const cellsize_t c = amrd->get_cell_index(p);
+    if (c >= nc) {
+      oracle("amrdensitygrid-cell-index-out-of-range");
+      return;
+    }
+    if (!in_box(amrd->_cells[c]->get_geometry(), p, 4.e-16, sc))
+      oracle("amrdensitygrid-located-cell-does-not-contain-position");
+    for (uint64_t o = 0; o < nc; ++o)
+      if (o != c && in_box(amrd->_cells[o]->get_geometry(), p, -4.e-16, sc)) {
+        oracle("amrdensitygrid-position-inside-another-cell");
+        break;
+      }
+    return;
+  }
+  if (sub == "ray" && w.size() == 10) {
+    const CoordinateVector<> p0(dbl(w[2]), dbl(w[3]), dbl(w[4]));
+    const CoordinateVector<> dir(dbl(w[5]), dbl(w[6]), dbl(w[7]));
+    const double tau = dbl(w[8]), sH = dbl(w[9]);
+    for (uint64_t c = 0; c < nc; ++c)
+      DensityGrid::iterator(c, *amrd).get_ionization_variables().reset_mean_intensities();
+    Photon photon(p0, dir, 1.);
+    photon.set_cross_section(ION_H_n, sH);
+    photon.set_cross_section_He_corr(0.);
+    DensityGrid::iterator it = amrd->interact(photon, tau);
+    const CoordinateVector<> pf = photon.get_position();
+    const bool absorbed = !(it == amrd->end());
+    std::cout << "amrd ray\n";
+    double total = 0., taudone = 0., kmax = 0., smax = 0.;
+    for (uint64_t c = 0; c < nc; ++c) {
+      const IonizationVariables &iv = DensityGrid::iterator(c, *amrd).get_ionization_variables();
+      const double J = iv.get_mean_intensity(ION_H_n);
+      const double kappa = iv.get_number_density() * sH * iv.get_ionic_fraction(ION_H_n);
+      kmax = std::max(kmax, kappa);
+      total += J;
+      taudone += (J / sH) * kappa;
+    }
+    for (int i = 0; i < 3; ++i)
+      smax = std::max(smax, amrd_box.get_sides()[i]);
+    const double S = total / sH;
+    const double dlen = std::sqrt(dir.norm2());
+    std::string bad;
+    for (int i = 0; i < 3 && bad.empty(); ++i) {
+      // the AMR traversal measures ds as a length: path * direction / |direction| = displacement
+      const double resid = (pf[i] - p0[i] - S * dir[i] / dlen) / amrd_box.get_sides()[i];
+      const double tol = 1.e-8 * (1. + S / amrd_box.get_sides()[i]) + 1.e-9 * sc[i] / amrd_box.get_sides()[i];
+      if (amrd_per[i]) {
+        if (std::fabs(resid - std::round(resid)) > tol)
+          bad = "amrdensitygrid-path-sum-differs-from-distance-travelled";
+      } else if (std::fabs(resid) > tol) {
+        bad = "amrdensitygrid-path-sum-differs-from-distance-travelled";
+      }
+    }
+    if (bad.empty()) {
+      if (absorbed) {
+        if (std::fabs(taudone - tau) > 1.e-8 * tau + 1.e-12 * kmax * smax)
+          bad = "amrdensitygrid-absorbed-but-optical-depth-not-reached";
+        else if (it.get_index() >= nc || !in_box(amrd->_cells[it.get_index()]->get_geometry(), pf, 1.e-11, sc))
+          bad = "amrdensitygrid-absorbed-outside-the-returned-cell";
+      } else {
+        if (taudone > tau * (1. + 1.e-8))
+          bad = "amrdensitygrid-escaped-although-optical-depth-was-reached";
+        bool onface = false;
+        for (int i = 0; i < 3; ++i) {
+          if (amrd_per[i])
+            continue;
+          const double lo = amrd_box.get_anchor()[i], hi = lo + amrd_box.get_sides()[i];
+          if (pf[i] <= lo + 1.e-11 * sc[i] || pf[i] >= hi - 1.e-11 * sc[i])
+            onface = true;
+        }
+        if (!onface)
+          bad = "amrdensitygrid-escaped-inside-the-box";
+      }
+    }
+    if (!bad.empty())
+      oracle(bad);
+    return;
+  }
+  std::cout << "bad-op\n";
+}
+
 int main() {
   std::string line;
+  std::signal(SIGALRM, on_alarm);
   while (std::getline(std::cin, line)) {
     ++lineno;
+    std::cout.flush();
+    alarm(60);
     const std::vector< std::string > w = words(line);
     if (w.empty()) {
       std::cout << "bad-op\n";
@@ -847,6 +1049,8 @@ int main() {
       op_amr(w);
     else if (o == "cart" && w.size() >= 2)
       op_cart(w);
+    else if (o == "amrd" && w.size() >= 2)
+      op_amrd(w);
     else if (o == "pl" && w.size() >= 2)
       op_pl(w);
     else if (o == "oct" && w.size() >= 2)
